@@ -3,6 +3,8 @@ package props
 import (
 	"fmt"
 	"go/types"
+	"os"
+	"reflect"
 	"strings"
 	"verif/checker/internal/engb"
 
@@ -97,6 +99,9 @@ func legacySemantic(c *core.Ctx) map[string]legacyVerdict {
 		leg, e2 := run(p.typ, one(p.legacy))
 		b1, e3 := run(p.typ, both)
 		b2, e4 := run(p.typ, bothRev)
+		if os.Getenv("VCHECK_LEGACY_DEBUG") != "" && cur != nil && leg != nil {
+			fmt.Printf("LEGACY %s %s: cur=%s\n   leg=%s\n", p.typ, p.legacy, cur.val, leg.val)
+		}
 		key := fmt.Sprintf("%q and %q spell the same thing", p.legacy, p.current)
 		_, _ = fn, key
 		k := p.typ + "|" + p.legacy
@@ -107,6 +112,9 @@ func legacySemantic(c *core.Ctx) map[string]legacyVerdict {
 		switch {
 		case !cur.errNil || !leg.errNil || !b1.errNil || !b2.errNil:
 			out[k] = legacyVerdict{msg: fmt.Sprintf("a spelling is rejected by the decoder (error nil: current=%v legacy=%v both=%v/%v)", cur.errNil, leg.errNil, b1.errNil, b2.errNil)}
+		case cur.val != leg.val && otherFieldsDiffer(cur.val, leg.val, ownFields(c, p.typ, p.current, p.legacy)):
+			// the two spellings leave different models in fields that are NOT the pair's own: no fold elsewhere explains that
+			out[k] = legacyVerdict{overrides: true, msg: fmt.Sprintf("{%q: v} decodes to %s but {%q: v} decodes to %s — the spellings differ in a field other than the keyword's own", p.current, cur.val, p.legacy, leg.val)}
 		case cur.val != leg.val:
 			out[k] = legacyVerdict{msg: fmt.Sprintf("{%q: v} decodes to %s but {%q: v} decodes to %s", p.current, cur.val, p.legacy, leg.val)}
 		case b1.val != cur.val || b2.val != cur.val:
@@ -160,4 +168,82 @@ func ruleDefsAsWritten(c *core.Ctx) {
 			return false, strings.Join(r.Problems, "; "), r.Pos
 		})
 	}
+}
+
+// topFields splits a DebugValue struct dump "{ #i:v #j:w }" into its top-level entries.
+func topFields(d string) map[string]string {
+	out := map[string]string{}
+	d = strings.TrimSpace(d)
+	d = strings.TrimSuffix(strings.TrimPrefix(d, "{"), "}")
+	depth, start, key := 0, -1, ""
+	flush := func(end int) {
+		if key != "" {
+			out[key] = strings.TrimSpace(d[start:end])
+		}
+	}
+	for i := 0; i < len(d); i++ {
+		switch d[i] {
+		case '{', '[', '(':
+			depth++
+		case '}', ']', ')':
+			depth--
+		case '#':
+			if depth == 0 && (i == 0 || d[i-1] == ' ') {
+				j := i + 1
+				for j < len(d) && d[j] >= '0' && d[j] <= '9' {
+					j++
+				}
+				if j > i+1 && j < len(d) && d[j] == ':' {
+					flush(i)
+					key, start = d[i:j], j+1
+					i = j
+				}
+			}
+		}
+	}
+	flush(len(d))
+	return out
+}
+
+// ownFields: the dump keys ("#i") of the struct fields of pkg/schemas.<typ> whose json tags are the pair's own keywords.
+func ownFields(c *core.Ctx, typ string, tags ...string) map[string]bool {
+	out := map[string]bool{}
+	pk := c.Prog.Pkg("pkg/schemas")
+	if pk == nil {
+		return out
+	}
+	o := pk.Types.Scope().Lookup(typ)
+	if o == nil {
+		return out
+	}
+	st, ok := o.Type().Underlying().(*types.Struct)
+	if !ok {
+		return out
+	}
+	for i := 0; i < st.NumFields(); i++ {
+		name := strings.Split(reflect.StructTag(st.Tag(i)).Get("json"), ",")[0]
+		for _, t := range tags {
+			if name == t {
+				out[fmt.Sprintf("#%d", i)] = true
+			}
+		}
+	}
+	return out
+}
+
+// otherFieldsDiffer: the dumps of the current-spelling and the legacy-spelling run differ in a field that is not one of the pair's
+// own (a fold that lives elsewhere shows only as: the current field filled in one run, the raw legacy field in the other).
+func otherFieldsDiffer(cur, leg string, own map[string]bool) bool {
+	a, b := topFields(cur), topFields(leg)
+	for k, v := range a {
+		if w, ok := b[k]; (!ok || w != v) && !own[k] {
+			return true
+		}
+	}
+	for k := range b {
+		if _, ok := a[k]; !ok && !own[k] {
+			return true
+		}
+	}
+	return false
 }
